@@ -19,17 +19,23 @@ SPEC = {
     "rule": "case kinds by case number mod 8: 0,1 raw IoInterface::read/write streams (addresses through "
             "IoAddress::parse; wildcard, hierarchical, bit>7 and empty-path addresses hand-built); 2 alternately binding "
             "lists over a VariableStorage (read_inputs / write_outputs, typed/untyped, by name/by reference, dangling, "
-            "size/type mismatches, wrong-kind values) and sweeps of one typed binding (each of the 17 types in turn) over "
-            "own-type, drifted-integer (around the type's limits) and foreign values; 3 partial access; 4-7 compiled "
+            "size/type mismatches, wrong-kind values) and sweeps of one typed binding (each of the 25 types in turn: the 17 "
+            "elementary types and TIME/DATE/TOD/DT/LTIME/LDATE/LTOD/LDT) over own-type (date/time: whole counts, fractions of a "
+            "count, counts across the 32-bit limits), drifted-integer (around the type's limits), enum and foreign values; 3 "
+            "partial access; 4-7 compiled "
             "CONFIGURATIONs with AT-bound globals and program variables (elementary, one-dimensional arrays with arbitrary "
             "lower bound, structures of elementary fields; the size letter of the declaration agrees with the type in 3/4 of "
-            "the declarations and is arbitrary otherwise) of the 17 elementary types in %I/%Q/%M at overlapping/adjacent "
+            "the declarations and is arbitrary otherwise) of the 25 bindable types, and enum-typed variables (1/8 of the "
+            "declarations), in %I/%Q/%M at overlapping/adjacent "
             "addresses, 0-3 tasks + background programs, 0-3 logging drivers with changing inputs and "
             "scripted failures, division-by-zero faults, clear_fault, idle cycles, external variable writes (also of the "
-            "wrong kind), and with a debugger attached queued I/O writes and forced/released I/O.  non-trivial = raw: "
+            "wrong kind; enum values with in- and out-of-range numeric values into the enum variables), and with a debugger "
+            "attached queued I/O writes and forced/released I/O.  non-trivial = raw: "
             "overlapping writes of >=3 sizes; bind: >=3 bindings or a sweep; rt: >=3 bindings, >=1 driver, >=2 programs of "
             "which one in a task and a successful full cycle; pa: always.  distinct = by hash of the case's operation lines. "
-            "Two witness cases for the recorded findings follow the generated cases",
+            "Three witness cases follow the generated cases and are replayed on every run: the repaired findings "
+            "C07-time-input (TIME at %ID0 must latch T#263ms from 07 01 00 00) and C07-enum-output (enum at %QW0 holding "
+            "Blue must publish 02 00) - anything else is a violation - and the open finding C07-enum-input",
     "trusted_base": [
         "Lean 4.33.0 kernel; axioms per theorem listed under 'theorems'",
         "hand-written model lean/TrustVerif/Model/C07.lean of IoInterface::{read,write,read_inputs,write_outputs}, "
@@ -46,8 +52,12 @@ SPEC = {
         "only be hand-built, IoAddress::parse refuses it; theorems are stated for bit <= 7",
         "default fault policy (Halt) and no safe state: apply_safe_state is C08's and not modelled",
         "ready tasks are given in execution order (the scheduler is C06's)",
-        "REAL/LREAL travel as raw bit patterns; coerce_to_io of a non-float numeric value into a REAL/LREAL binding "
-        "(a float conversion) is outside the model and not generated",
+        "REAL/LREAL travel as raw bit patterns; coerce_to_io of a non-float numeric value (or an enum) into a REAL/LREAL "
+        "binding (a float conversion) is outside the model and not generated",
+        "date/time types: TIME travels as i32 milliseconds (Duration::as_millis truncates toward zero: a fraction of a "
+        "millisecond is not published), DATE/TOD/DT as i32 ticks, the L-variants as i64 nanoseconds; a 32-bit count that does "
+        "not fit is Overflow (theorems: guard Value.ioExact); the DateTimeProfile resolution is the default 1 ms",
+        "an enum value is modelled by its numeric value; type and variant names are not compared",
         "forced variables (force_global etc.) and retain-store saving at the end of the cycle are not modelled",
     ],
 }
@@ -61,8 +71,11 @@ MANIFEST = {
                   "other seven bits unchanged; image grows exactly to the span), read locality (c07_read_local), read-after-write "
                   "(c07_read_write), bit n of byte b and little-endian closed forms (c07_read_bit, c07_read_le, c07_write_le, c07_le), "
                   "non-interference of disjoint addresses incl. two bits of one byte (c07_write_disjoint_read), hierarchical and "
-                  "wildcard addresses (c07_hier, c07_wildcard); the typed codec is a bijection for the 17 elementary types "
-                  "(c07_coerce_encode_decode / _decode_encode); bound variable = decode(latched bytes) and the latch writes nothing "
+                  "wildcard addresses (c07_hier, c07_wildcard); the typed codec is a bijection between the I/O values of the size and "
+                  "the representable values of the type for the 25 bindable types - the 17 elementary types and, since the repair "
+                  "of C07-time-input, TIME/DATE/TOD/DT (signed 32-bit counts: milliseconds / ticks) and LTIME/LDATE/LTOD/LDT "
+                  "(signed 64-bit nanoseconds) (c07_coerce_encode_decode / _decode_encode); an enum is published as the integer "
+                  "of its base type with its numeric value (c07_enum_publish, repair of C07-enum-output); bound variable = decode(latched bytes) and the latch writes nothing "
                   "else (c07_latch_value, c07_latch_decode, c07_latch_frame); published bytes = encode(final value) unless a later "
                   "binding overlaps (c07_collect_value, c07_publish_encode), the publish never touches the input image "
                   "(c07_collect_inputs); for the cycle: trace = CycleStart, one read per driver in order, no driver call while all "
@@ -73,8 +86,10 @@ MANIFEST = {
                   "leaves the images as the input phase left them (c07_fault_no_publish; c07_fault_in_publish and its counterexample "
                   "describe the one excluded case, a driver's own write failing); a faulted resource is a no-op (c07_faulted_noop); "
                   "partial access %X/%B/%W/%D: frame, content, read-after-write, range (c07_partial_read, c07_partial_write); the bindings "
-                  "derived from `x AT base : T` are well typed and lay the leaves of arrays/structures out disjointly "
-                  "(c07_expand_layout). "
+                  "derived from `x AT base : T` are well typed whenever the declaration is accepted (no guard on the leaf types any "
+                  "more) and lay the leaves of arrays/structures out disjointly (c07_expand_layout); well-typed binding sets never "
+                  "fault in read_inputs, nor in write_outputs when the variables hold representable values of their types or enums "
+                  "standing for one (c07_bindings_total, formerly _partial). "
                   "Each run executes the model and the REAL code (IoInterface, VariableStorage, partial access, and whole compiled "
                   "CONFIGURATIONs cycled through Runtime::execute_cycle with logging IoDrivers registered by add_io_driver) on the same "
                   "generated cases and compares results, images, variables and the ordered driver/runtime event log.",
@@ -86,10 +101,16 @@ MANIFEST = {
                   "addresses), IoAddress::parse (addresses go through it where a text form exists), scheduling (C06).  Not "
                   "modelled: apply_safe_state / non-default fault policies (C08), forced variables, retain saving, float conversion "
                   "of a non-float numeric value into a REAL/LREAL binding, AT on FB members / VAR_CONFIG / nested or "
-                  "multi-dimensional types / unions / relative field addresses / hierarchical base addresses.  Theorems about typed bindings hold under the "
-                  "decidable guard Binding.wellTyped (type among the 17, size = size of type, flat address, bit <= 7) and "
-                  "holdsTyped (the variable holds an in-range value of its type): outside it the code faults, which is recorded as "
-                  "findings C07-time-input and C07-enum-output (c07_counterexample_time_input / _enum_output, c07_bindings_total_partial).",
+                  "multi-dimensional types / unions / relative field addresses / hierarchical base addresses.  Theorems about typed bindings are stated for "
+                  "Binding.wellTyped (type among the 25, size = size of type, flat address, bit <= 7: proved for every binding the "
+                  "compiler model derives, c07_expand_layout) and holdsTyped (the variable holds an in-range value of its type that "
+                  "the image can represent - a 32-bit date/time value must be a whole count fitting 32 bits, otherwise the code "
+                  "answers Overflow / truncates a TIME below 1 ms - or an enum whose numeric value is one).  Findings "
+                  "C07-time-input and C07-enum-output are repaired in /repo (regression witnesses c07_time_input_latches, "
+                  "c07_enum_output_publishes, replayed on the real code on every run; the old counterexample theorems are gone).  "
+                  "Open: C07-enum-input - an enum variable bound to %I/%M is latched as a bare integer of the base type "
+                  "(c07_counterexample_enum_input: coerce_from_io never yields an enum); the model is faithful to that, the witness "
+                  "run reports it as KNOWN-FINDING.",
 }
 
 
@@ -102,32 +123,70 @@ def _finding_cases(cases):
     return out
 
 
+# What the property demands of each witness (the cycle answer `res=.. log=.. vars=.. I=.. Q=.. M=..`):
+# variable 4 is the AT-bound one.
+_WITNESS_ORACLE = {
+    # repaired: TIME at %ID0, driver delivers 07 01 00 00 -> T#263ms
+    "time-input": {"var4": "time:263000000", "what": "a TIME variable bound to %ID0 must hold decode(latched bytes 07 01 00 00) = "
+                                                      "T#263ms after the cycle"},
+    # repaired: enum at %QW0 holding Blue (2) -> bytes 02 00
+    "enum-output": {"var4": "enum:2", "Q": "02000000", "what": "an enum variable bound to %QW0 holding Blue must be published as "
+                                                             "its numeric value: %QW0 = 02 00"},
+    # open: enum at %IW0, driver delivers 01 00 -> Color#Green
+    "enum-input": {"var4": "enum:1", "what": "an enum variable bound to %IW0 must hold the enum value with the latched numeric "
+                                             "value (Green) after the cycle"},
+}
+
+
+def _witness_verdict(kind, case):
+    """None when the witness behaves as the property demands, else a short signature of what it did."""
+    if "compile-refused" in case.tags:
+        return "compile-refused"
+    impl = [i for (_op, i) in case.ops if i.startswith("res=")]
+    if not impl:
+        return "missing"
+    fields = dict(f.split("=", 1) for f in impl[0].split() if "=" in f)
+    if fields.get("res") != "ok":
+        return "res=" + fields.get("res", "?")
+    want = _WITNESS_ORACLE[kind]
+    var4 = (fields.get("vars", "").split(",") + [""] * 5)[4]
+    if var4 != want["var4"]:
+        return "latched=" + var4
+    if "Q" in want and fields.get("Q") != want["Q"]:
+        return "Q=" + fields.get("Q", "?")
+    return None
+
+
 def extra(ctx):
     """Oracle on the implementation for the recorded findings: the witness programs (a TIME input binding, an
-    enum output binding) are compiled and cycled by the harness; the property demands that the cycle succeeds
-    (bound variable = decode(latched bytes), published bytes = encode(final value)).  Still failing with the
-    recorded signature => KNOWN-FINDING; failing differently => violation; succeeding => nothing to report."""
+    enum output binding, an enum input binding) are compiled and cycled by the harness on every run; the property
+    demands that the cycle succeeds, the bound variable = decode(latched bytes) and the published bytes =
+    encode(final value).  A witness of a repaired finding that misbehaves in any way (also: is missing, or the
+    compiler refuses it) is a violation; the witness of the open finding failing with the recorded signature is a
+    KNOWN-FINDING, failing differently a violation."""
     res = {"known": [], "oracle_failures": [], "coverage": {}}
     known = {f["id"]: f for f in vlib.known_findings("C07")}
     witnesses = _finding_cases(ctx["cases"])
     reproduced = {}
-    for kind, case in sorted(witnesses.items()):
+    for kind in sorted(_WITNESS_ORACLE):
         fid = f"C07-{kind}"
-        if "compile-refused" in case.tags:
-            reproduced[fid] = "compile-refused"
+        case = witnesses.get(kind)
+        if case is None:
+            # a single-case replay (--only) does not run the witnesses; a full run always does (the harness
+            # fails otherwise)
+            reproduced[fid] = "not-run"
             continue
-        impl = [i for (_op, i) in case.ops if i.startswith("res=")]
-        first = impl[0].split()[0] if impl else "missing"
-        reproduced[fid] = first
-        if first == "res=ok":
+        verdict = _witness_verdict(kind, case)
+        reproduced[fid] = verdict or "as-required"
+        if verdict is None:
             continue
         entry = known.get(fid)
-        if entry is not None and entry.get("match") == first:
+        if entry is not None and entry.get("match") == verdict:
             res["known"].append(entry["what"])
         else:
             res["oracle_failures"].append({
-                "what": "a compiled program with one AT-bound variable and no injected fault must complete its scan cycle",
-                "finding": fid, "observed": first, "case": case.n, "case_lines": case.lines,
+                "what": _WITNESS_ORACLE[kind]["what"],
+                "finding": fid, "observed": verdict, "case": case.n, "case_lines": case.lines,
                 "seed": ctx["seed"], "tier": ctx["tier"],
             })
     res["coverage"]["finding_witnesses"] = reproduced
